@@ -569,6 +569,33 @@ def rule_M4(chk, eng):
                         f"results must be written into newly allocated arrays")
         else:
             chk.ok("M4", f, f"{f.name}({', '.join(f.params)})", sample=False)
+    # augmented assignment on a name that still holds the caller's array (`data /= Snorm`): numpy performs it in place.  The engine
+    # records it as undecided when it does not know the kind of the parameter; in the backend a parameter is an array if the kernel
+    # subscripts it, reads an array attribute of it, or hands it to a numpy/scipy function.
+    ARRAY_ATTRS = {"shape", "dtype", "reshape", "real", "imag", "size", "ndim", "T", "conj", "astype", "copy", "flatten", "ravel"}
+    for f in b.funcs.values():
+        if id(f.node) not in eng.summ:
+            continue
+        fa = eng.analysis(f)
+        for node, why in fa.undecided:
+            if not (isinstance(node, ast.AugAssign) and isinstance(node.target, ast.Name) and "augmented assignment" in why):
+                continue
+            nm = node.target.id
+            arrayish = False
+            for n in ast.walk(f.node):
+                if isinstance(n, ast.Subscript) and isinstance(n.value, ast.Name) and n.value.id == nm:
+                    arrayish = True
+                elif isinstance(n, ast.Attribute) and isinstance(n.value, ast.Name) and n.value.id == nm and n.attr in ARRAY_ATTRS:
+                    arrayish = True
+                elif isinstance(n, ast.Call) and (A.call_name(n) or "").startswith(("np.", "scipy.", "numpy.")) \
+                        and any(isinstance(a_, ast.Name) and a_.id == nm for a_ in n.args):
+                    arrayish = True
+            if arrayish and nm in f.params and f.params.index(nm) not in allowed_mut.get(f.name, set()):
+                chk.bad("M4", (f, node), A.text(node),
+                        f"backend kernel {f.name}(): `{A.text(node)}` is an in-place operation on the array the caller passed as `{nm}` "
+                        f"(the name still refers to the argument there): the operand of the public operation is modified")
+            else:
+                chk.ok("M4", (f, node), f"{f.name}: `{A.text(node)}` on a scalar / local", sample=False)
     # declared views: functions that may return (a view of) an argument
     declared = {"conj", "real", "imag", "detach", "detach_", "move_to", "permute_dims", "to_numpy", "to_tensor",
                 "requires_grad_", "fix_svd_signs", "bitwise_not", "get_dtype", "diag_get", "real_dtype",
@@ -628,6 +655,7 @@ def rule_M5(chk, eng, funcs):
 
 
 MUTANTS = [
+    ('entropy kernel normalises its argument in place', 'yastn/backend/backend_np.py', '        data = data / Snorm\n        data = data[data > tol]', '        data /= Snorm\n        data = data[data > tol]', 'M4'),
     ('projector dictionaries of the caller reused', 'yastn/tn/fpeps/_gates_auxiliary.py', '        projectors[k] = dict(v) if isinstance(v, dict) else dict(enumerate(v))', '        projectors[k] = v if isinstance(v, dict) else dict(enumerate(v))', 'M6'),
     ('BP sampling works on the stored site environments', 'yastn/tn/fpeps/envs/_env_bp.py', '                env[nx, ny] = self[nx0, ny0].shallow_copy()', '                env[nx, ny] = self[nx0, ny0]', 'M7'),
     ('history list shared through the default', 'yastn/tn/fpeps/envs/_env_ctm.py', 'history: None | Sequence[dict[tuple[Site, str], Tensor]]=None,', 'history: None | Sequence[dict[tuple[Site, str], Tensor]]=[],', 'M8'),
